@@ -26,6 +26,7 @@ open PvModel
 inductive Err where
   | sanctioned | funds | notfound | inactive | denom | mindep | proposer | ended
   | signer | unsanctionable | invalid | panic
+  | perm | nogrant | noforce | blocked | nomarker
   deriving Repr, DecidableEq, Inhabited
 
 def Err.toString : Err → String
@@ -41,6 +42,11 @@ def Err.toString : Err → String
   | .unsanctionable => "err:unsanctionable"
   | .invalid => "err:invalid"
   | .panic => "panic:other"
+  | .perm => "err:perm"
+  | .nogrant => "err:nogrant"
+  | .noforce => "err:noforce"
+  | .blocked => "err:blocked"
+  | .nomarker => "err:nomarker"
 
 abbrev R := Except Err
 
@@ -87,6 +93,27 @@ structure Store where
   unsancMin : Coins := []
   deriving Repr
 
+/-- a restricted-coin marker (x/marker): its account and the addresses holding each access the
+fund-moving endpoints look at (`Access_Transfer`, `Access_ForceTransfer`, `Access_Withdraw`,
+`Access_Deposit`); `allowForce` = `AllowForcedTransfer`.  All markers of the model are active. -/
+structure Marker where
+  denom : Denom
+  addr : Addr
+  allowForce : Bool
+  xfer : List Addr
+  force : List Addr
+  withdraw : List Addr
+  deposit : List Addr
+  deriving Repr, DecidableEq
+
+/-- an authz grant of a `MarkerTransferAuthorization` (x/marker/types/authz.go): `grantee` may
+transfer restricted coins out of `granter`'s account up to `limit` -/
+structure Grant where
+  grantee : Addr
+  granter : Addr
+  limit : Coins
+  deriving Repr
+
 /-- configuration: the unsanctionable list wired in app/app.go:676-683 and the gov params the
 harness installs. -/
 structure Cfg where
@@ -117,6 +144,18 @@ structure Cfg where
   burnPrevote : Bool := false
   /-- addresses the driver reports on (no meaning for the model) -/
   names : List Addr := []
+  /-- the restricted markers of the history -/
+  markers : List Marker := []
+  /-- `bankKeeper.BlockedAddr`: module accounts that may not receive funds through the marker /
+  exchange endpoints -/
+  blocked : List Addr := []
+  /-- accounts forced transfers may not take from (`canForceTransferFrom`, marker.go:689: an
+  existing account with sequence 0 that is neither a marker, a market nor a group account) -/
+  noForce : List Addr := []
+  /-- the account of the exchange market the history settles in -/
+  market : Addr := "MKT"
+  /-- the addresses with withdraw permission on that market -/
+  marketAdmins : List Addr := []
   deriving Repr
 
 /-- keeper.go:270 `IsAddrThatCannotBeSanctioned` -/
@@ -222,6 +261,8 @@ structure State where
   ledger : Ledger := []
   /-- ghost: ids of proposals removed by `CancelProposal` (not stored by the code) -/
   cancelled : List Nat := []
+  /-- authz grants of `MarkerTransferAuthorization` -/
+  grants : List Grant := []
   deriving Repr
 
 /-! ### gov hooks of the sanction keeper (x/sanction/keeper/gov_hooks.go) -/
@@ -296,6 +337,114 @@ def inputOutputCoins (s : State) (frm : Addr) (tos : List Addr) (amt : Coins) : 
   else if !hasFunds s.ledger frm (Coins.scale tos.length amt) then .error .funds
   else if isSanctionedAddr s.cfg s.st frm then .error .sanctioned
   else .ok { s with ledger := tos.foldl (fun l to => l.move frm to amt) s.ledger }
+
+/-! ### routes that move funds on an account's behalf (x/marker, x/exchange, x/authz)
+
+Every one of them ends in the bank primitives above, so the sanction send restriction sees the
+account whose balance decreases — whoever signs the message. -/
+
+def getMarkerByDenom (c : Cfg) (d : Denom) : Option Marker := c.markers.find? (fun m => decide (m.denom = d))
+def markerAt (c : Cfg) (a : Addr) : Option Marker := c.markers.find? (fun m => decide (m.addr = a))
+
+/-- marker.go:880 `validateSendToMarker`: funds going to a restricted marker's account need an
+admin with deposit access on that marker -/
+def validateSendToMarker (c : Cfg) (to admin : Addr) : Bool :=
+  match markerAt c to with
+  | none => true
+  | some m => decide (admin ∈ m.deposit)
+
+def sameGrant (grantee granter : Addr) (g : Grant) : Bool := decide (g.grantee = grantee ∧ g.granter = granter)
+def findGrant (gs : List Grant) (grantee granter : Addr) : Option Grant := gs.find? (sameGrant grantee granter)
+def delGrant (gs : List Grant) (grantee granter : Addr) : List Grant := gs.filter (fun g => !sameGrant grantee granter g)
+def setGrant (gs : List Grant) (g : Grant) : List Grant := g :: delGrant gs g.grantee g.granter
+
+/-- authz `MsgGrant` of a `MarkerTransferAuthorization` (sdk:x/authz/keeper/msg_server.go:17;
+`ValidateBasic`, authz.go:64: the limit is valid coins and not zero) -/
+def grantTransfer (s : State) (granter grantee : Addr) (limit : Coins) : R State :=
+  if granter = "" ∨ grantee = "" ∨ granter = grantee then .error .invalid
+  else if !(coinsValid limit && !limit.isEmpty) then .error .invalid
+  else .ok { s with grants := setGrant s.grants ⟨grantee, granter, limit⟩ }
+
+/-- marker.go:790 `authzHandler` with `MarkerTransferAuthorization.Accept` (authz.go:30, no allow
+list): no grant → refused; amount above the limit of its denom → `ErrInsufficientFunds`; the
+grant is deleted when nothing of the limit is left, else saved with the rest. -/
+def authzHandler (s : State) (admin frm : Addr) (d : Denom) (x : Int) : R State :=
+  match findGrant s.grants admin frm with
+  | none => .error .nogrant
+  | some g =>
+    if Coins.amountOf g.limit d < x then .error .funds
+    else if Coins.isZero (g.limit ++ [(d, -x)]) then .ok { s with grants := delGrant s.grants admin frm }
+    else .ok { s with grants := setGrant s.grants ⟨admin, frm, g.limit ++ [(d, -x)]⟩ }
+
+/-- `sdk.NewCoins(amount)`: a zero coin is dropped -/
+def oneCoin (d : Denom) (x : Int) : Coins := if x = 0 then [] else [(d, x)]
+
+/-- marker.go:650-665: what lets `admin` move coins of `frm` -/
+def transferAuth (s : State) (m : Marker) (admin frm : Addr) (d : Denom) (x : Int) : R State :=
+  if admin = frm then .ok s
+  else if m.allowForce = false ∨ admin ∉ m.force then authzHandler s admin frm d x
+  else if frm ∈ s.cfg.noForce then .error .noforce
+  else .ok s
+
+/-- marker.go:624 `TransferCoin` (behind `MsgTransferRequest`, msg_server.go:375): the marker
+must exist; the admin needs transfer or force-transfer access (:640), and deposit access when the
+destination is a restricted marker (:646); when the admin is not the owner of the funds (:650)
+either the marker allows forced transfers and the admin may force them — then only
+`canForceTransferFrom` is asked — or an authz grant of the owner is needed and used up; the
+destination may not be a blocked address (:667); then `bankKeeper.SendCoins` (:673) under the
+marker module's bypass — which the sanction restriction does not look at. -/
+def transferCoin (s : State) (admin frm to : Addr) (d : Denom) (x : Int) : R State :=
+  match getMarkerByDenom s.cfg d with
+  | none => .error .nomarker
+  | some m =>
+    if admin ∉ m.xfer ∧ admin ∉ m.force then .error .perm
+    else if !validateSendToMarker s.cfg to admin then .error .perm
+    else
+      match transferAuth s m admin frm d x with
+      | .error e => .error e
+      | .ok s1 => if to ∈ s.cfg.blocked then .error .blocked else sendCoins s1 frm to (oneCoin d x)
+
+/-- marker.go:169 `WithdrawCoins` (behind `MsgWithdrawRequest`): out of the marker's own account -/
+def withdrawCoins (s : State) (caller recipient : Addr) (d : Denom) (amt : Coins) : R State :=
+  match getMarkerByDenom s.cfg d with
+  | none => .error .nomarker
+  | some m =>
+    if caller ∉ m.withdraw then .error .perm
+    else if !validateSendToMarker s.cfg recipient caller then .error .perm
+    else if recipient ∈ s.cfg.blocked then .error .blocked
+    else sendCoins s m.addr recipient amt
+
+/-- x/exchange/keeper/market.go:1541 `WithdrawMarketFunds` behind `MsgMarketWithdrawRequest`
+(msg_server.go:156: the signer needs withdraw permission on the market): out of the market's
+account, to anybody — the signer itself included -/
+def withdrawMarketFunds (s : State) (admin to : Addr) (amt : Coins) : R State :=
+  if admin ∉ s.cfg.marketAdmins then .error .perm
+  else if to ∈ s.cfg.blocked then .error .blocked else sendCoins s s.cfg.market to amt
+
+/-- payments.go:276,283: `if !amount.IsZero() { SendCoins }` -/
+def sendIfAny (s : State) (frm to : Addr) (amt : Coins) : R State :=
+  if amt.isEmpty then .ok s else sendCoins s frm to amt
+
+/-- x/exchange payments (payments.go:205 `CreatePayment`: hold on the source amount; :230
+`AcceptPayment`: source → target, then target → source, both through `SendCoins`), created by the
+source and accepted by the target in one transaction -/
+def acceptPayment (s : State) (src tgt : Addr) (sAmt tAmt : Coins) : R State :=
+  if !hasFunds s.ledger src sAmt then .error .funds
+  else
+    match sendIfAny s src tgt sAmt with
+    | .error e => .error e
+    | .ok s1 => sendIfAny s1 tgt src tAmt
+
+/-- x/exchange order settlement: an ask of `seller` (hold on the assets) and a bid of `buyer` (hold
+on the price) settled by the market (`MsgMarketSettleRequest` → fulfillment.go:267
+`closeSettlement`: holds released, then BOTH transfers attempted through `DoTransfer`,
+keeper.go:201, and their errors joined), in one transaction -/
+def settleOrders (s : State) (seller buyer : Addr) (assets price : Coins) : R State :=
+  if !hasFunds s.ledger seller assets then .error .funds
+  else if !hasFunds s.ledger buyer price then .error .funds
+  else if isSanctionedAddr s.cfg s.st seller || isSanctionedAddr s.cfg s.st buyer then .error .sanctioned
+  else if seller ∈ s.cfg.blocked ∨ buyer ∈ s.cfg.blocked then .error .blocked
+  else .ok { s with ledger := (s.ledger.move seller buyer assets).move buyer seller price }
 
 /-! ### gov keeper -/
 
@@ -574,6 +723,18 @@ inductive Op where
   | msg (m : PMsg)
   /-- mint to an account (harness set-up): a pure credit -/
   | fund (who : Addr) (amt : Coins)
+  /-- authz grant of a marker transfer authorization by `granter` to `grantee` -/
+  | grant (granter grantee : Addr) (limit : Coins)
+  /-- `MsgTransferRequest` signed by `admin`: `x` of the restricted denom `d` from `frm` to `to` -/
+  | mxfer (admin frm to : Addr) (d : Denom) (x : Int)
+  /-- `MsgWithdrawRequest` signed by `admin`: out of the account of the marker of denom `d` -/
+  | mwd (admin to : Addr) (d : Denom) (amt : Coins)
+  /-- `MsgMarketWithdrawRequest` signed by `admin` -/
+  | mktwd (admin to : Addr) (amt : Coins)
+  /-- `MsgCreatePaymentRequest` by `src` + `MsgAcceptPaymentRequest` by `tgt` -/
+  | pay (src tgt : Addr) (sAmt tAmt : Coins)
+  /-- ask by `seller` + bid by `buyer` + `MsgMarketSettleRequest` -/
+  | settle (seller buyer : Addr) (assets price : Coins)
   deriving Repr
 
 def applyOp (s : State) : Op → R State
@@ -597,6 +758,20 @@ def applyOp (s : State) : Op → R State
     | .ok st => .ok { s with st := st }
     | .error e => .error e
   | .fund who amt => if !validAmt amt then .error .invalid else .ok { s with ledger := s.ledger.credit who amt }
+  | .grant granter grantee limit => grantTransfer s granter grantee limit
+  | .mxfer admin frm to d x =>
+    if admin = "" ∨ frm = "" ∨ to = "" ∨ x < 0 then .error .invalid else transferCoin s admin frm to d x
+  | .mwd admin to d amt =>
+    if admin = "" ∨ to = "" ∨ !(validAmt amt && coinsValid amt) then .error .invalid else withdrawCoins s admin to d amt
+  | .mktwd admin to amt =>
+    if admin = "" ∨ to = "" ∨ !(validAmt amt && coinsValid amt) then .error .invalid else withdrawMarketFunds s admin to amt
+  | .pay src tgt sAmt tAmt =>
+    if src = "" ∨ tgt = "" ∨ !(coinsValid sAmt && coinsValid tAmt) ∨ (sAmt.isEmpty ∧ tAmt.isEmpty) then .error .invalid
+    else acceptPayment s src tgt sAmt tAmt
+  | .settle seller buyer assets price =>
+    if seller = "" ∨ buyer = "" ∨ seller = buyer ∨ !(validAmt assets && validAmt price) ∨ assets.length ≠ 1 ∨
+        price.length ≠ 1 ∨ Coins.denoms assets = Coins.denoms price then .error .invalid
+    else settleOrders s seller buyer assets price
 
 /-- a failed operation leaves the state unchanged (the transaction is rolled back) -/
 def step (s : State) (op : Op) : State :=
